@@ -10,8 +10,9 @@
 (*                            differentiation of D x. b (value of r against the forward-mode derivative).  *)
 (*      PrintParseIdentity    str(r) parses, and gives r back (numerals identified, see Canon)            *)
 (*      A rule that fails with its own exception is not a violation (no clause applies).                  *)
-(*  kind "norm"  n1 = normalize(e), n2 = normalize(n1)                                                   *)
-(*      NormalizeIdempotent       n2 = n1, structurally                                                  *)
+(*  kind "norm"  n1 = normalize(e), n2 = normalize(n1), n3 = normalize(n2)                                *)
+(*      NormalizeIdempotent       n2 = n1, structurally.  The verdict file also says (info.cls) whether   *)
+(*                                the second pass was a fixed point (n3 = n2): "second-pass-stable"          *)
 (*      NormalizePreservesValue   as SameValue, for e and n1                                             *)
 (*  kind "pp"    rp = parse_expr(str(e)) for expressions of ALL forms                                    *)
 (*      PrintParseIdentity                                                                               *)
@@ -25,13 +26,20 @@ PPFails(e, rpo, rp) ==
   ELSE LET a == Canon(e)  b == Canon(rp) IN
        IF HasKind(a, "bigconst") \/ HasKind(b, "bigconst") \/ HasKind(b, "oth") THEN FALSE ELSE a # b
 
+\* rules whose claim is "the result has the value of the input" with nothing but the recorded conditions as context.
+\* (Not judged by value: rules that use lemmas, definitions, induction hypotheses or earlier substitutions of the
+\* calculation, rules on equations, and IntegrateByEquation, whose result is the solution of an equation.)
+ValueRules == {"Simplify", "FullSimplify", "Linearity", "CommonIntegral", "DefiniteIntegralIdentity", "IndefiniteIntegralIdentity",
+               "ExpandPolynomial", "DerivativeSimplify", "SummationSimplify", "SimplifyPower", "DerivIntExchange", "IntSumExchange",
+               "MergeSummation", "Substitution", "SubstitutionInverse", "IntegrationByParts", "SplitRegion", "Equation",
+               "ElimInfInterval", "LHopital", "ReduceLimit", "ApplyIdentity", "SeriesExpansionIdentity", "SeriesEvaluationIdentity"}
 IsDerivStep(ev) == ev.e[1] = "deriv" /\ ev.rule \in {"DerivativeSimplify", "Sub:DerivativeSimplify"}
 
 \* <<set of failing clauses, non-trivial, divergence>>
-Verdict(ev) ==
+Verdict3(ev) ==
   CASE ev.kind = "rule" ->
          IF ev.outcome # "ok" THEN <<{}, FALSE, FALSE>>
-         ELSE LET sv == SameValue(ev.e, ev.r, ev.conds)
+         ELSE LET sv == IF ev.base \in ValueRules THEN SameValue(ev.e, ev.r, ev.conds) ELSE <<FALSE, FALSE>>
                   pp == PPFails(ev.r, ev.rpo, ev.rp) IN
               << (IF sv[1] THEN {IF IsDerivStep(ev) THEN "DerivCorrect" ELSE "SameValue"} ELSE {})
                  \cup (IF pp THEN {"PrintParseIdentity"} ELSE {}),
@@ -46,6 +54,13 @@ Verdict(ev) ==
     [] ev.kind = "pp" -> << IF PPFails(ev.e, ev.rpo, ev.rp) THEN {"PrintParseIdentity"} ELSE {}, Printable(ev.e, TRUE), FALSE >>
     [] OTHER -> <<{}, FALSE, FALSE>>
 
-TNext == LET ev == Trace[l]  v == Verdict(ev) IN TStep(ev.tid, v[1], v[2], v[3])
+\* <<set of failing clauses, non-trivial, divergence, class of the failure (bookkeeping only)>>
+Verdict(ev) == LET v == Verdict3(ev) IN
+  <<v[1], v[2], v[3],
+    IF ev.kind = "norm" /\ "NormalizeIdempotent" \in v[1] THEN (IF ev.n3 = ev.n2 THEN "second-pass-stable" ELSE "second-pass-unstable") ELSE "">>
+
+TNext == l <= Len(Trace) /\
+         LET ev == Trace[l]  v == Verdict(ev) IN
+         IF v[1] # {} THEN TStepInfo(ev.tid, v[1], v[2], v[3], [tid |-> ev.tid, cls |-> v[4]]) ELSE TStep(ev.tid, v[1], v[2], v[3])
 TSpec == TInit /\ [][TNext]_l
 =============================================================================
